@@ -124,3 +124,60 @@ Proof.
     rewrite H. rewrite (flag_values_none (old :: post) s_trimpath Hpost). reflexivity. }
   rewrite Hv. apply flag_set_value_bare; [exact Hpre | reflexivity].
 Qed.
+
+(* ---------- -X duplication ---------- *)
+Lemma cut_eq_app a v : existsb (N.eqb EQ) a = false -> cut_eq (a ++ EQ :: v) = Some (a, v).
+Proof.
+  induction a as [|c r IH]; cbn [existsb cut_eq app]; intros H; [rewrite N.eqb_refl; reflexivity|].
+  apply orb_false_iff in H as [H1 H2]. apply N.eqb_neq in H1. destruct (N.eqb_spec c EQ) as [E|_]; [congruence|]. rewrite (IH H2). reflexivity.
+Qed.
+Lemma cut_last_dot_app path name : existsb (N.eqb 46) name = false -> cut_last_dot (path ++ 46 :: name) = Some (path, name).
+Proof.
+  intros Hn. assert (Hnone : cut_last_dot name = None).
+  { clear path. induction name as [|c r IH]; [reflexivity|]. cbn [existsb] in Hn. apply orb_false_iff in Hn as [H1 H2].
+    cbn [cut_last_dot]. rewrite (IH H2). apply N.eqb_neq in H1. destruct (N.eqb_spec c 46) as [E|_]; [congruence | reflexivity]. }
+  induction path as [|c r IH]; cbn [app cut_last_dot]; [rewrite Hnone, N.eqb_refl; reflexivity | rewrite IH; reflexivity].
+Qed.
+
+(* -X=path.name=value for a package of the build: the duplicate names the variable by the package's
+   obfuscated import path and by the hash the Go side gives a package-level variable; the path is cut
+   at the LAST dot, so import paths with dots work *)
+Theorem x_dup_of_known_package lookup cur hname path name v ipath key :
+  existsb (N.eqb EQ) (path ++ 46 :: name) = false -> existsb (N.eqb 46) name = false ->
+  beq path s_mainpkg = false -> lookup path = Some (ipath, key) ->
+  x_dup lookup cur hname (path ++ 46 :: name ++ EQ :: v) = [s_Xeq ++ ipath ++ [46] ++ hname key name ++ [EQ] ++ v].
+Proof.
+  intros He Hd Hm Hl. unfold x_dup.
+  replace (path ++ 46 :: name ++ EQ :: v) with ((path ++ 46 :: name) ++ EQ :: v) by (rewrite <- app_assoc; reflexivity).
+  rewrite (cut_eq_app _ v He), (cut_last_dot_app path name Hd), Hm, Hl. reflexivity.
+Qed.
+(* a package that is not part of the build gets no duplicate (cmd/link ignores such flags too) *)
+Theorem x_dup_of_unknown_package lookup cur hname path name v :
+  existsb (N.eqb EQ) (path ++ 46 :: name) = false -> existsb (N.eqb 46) name = false ->
+  beq path s_mainpkg = false -> lookup path = None ->
+  x_dup lookup cur hname (path ++ 46 :: name ++ EQ :: v) = [].
+Proof.
+  intros He Hd Hm Hl. unfold x_dup.
+  replace (path ++ 46 :: name ++ EQ :: v) with ((path ++ 46 :: name) ++ EQ :: v) by (rewrite <- app_assoc; reflexivity).
+  rewrite (cut_eq_app _ v He), (cut_last_dot_app path name Hd), Hm, Hl. reflexivity.
+Qed.
+
+(* -X=path.name=value names a variable of the package being compiled iff the text before the LAST
+   dot is its import path (or "main" for a main package) and the text after it is one of its variables *)
+Theorem linker_var_of_own_package pkg_path pkg_name vars name v :
+  existsb (N.eqb EQ) (pkg_path ++ 46 :: name) = false -> existsb (N.eqb 46) name = false -> mem name vars = true ->
+  linker_var pkg_path pkg_name vars (pkg_path ++ 46 :: name ++ EQ :: v) = Some (name, v).
+Proof.
+  intros He Hd Hm. unfold linker_var.
+  replace (pkg_path ++ 46 :: name ++ EQ :: v) with ((pkg_path ++ 46 :: name) ++ EQ :: v) by (rewrite <- app_assoc; reflexivity).
+  rewrite (cut_eq_app _ v He), (cut_last_dot_app pkg_path name Hd), beq_refl, Hm. reflexivity.
+Qed.
+Theorem linker_var_of_other_package pkg_path pkg_name vars path name v :
+  existsb (N.eqb EQ) (path ++ 46 :: name) = false -> existsb (N.eqb 46) name = false ->
+  beq path pkg_path = false -> beq path s_mainpkg = false ->
+  linker_var pkg_path pkg_name vars (path ++ 46 :: name ++ EQ :: v) = None.
+Proof.
+  intros He Hd Hp Hm. unfold linker_var.
+  replace (path ++ 46 :: name ++ EQ :: v) with ((path ++ 46 :: name) ++ EQ :: v) by (rewrite <- app_assoc; reflexivity).
+  rewrite (cut_eq_app _ v He), (cut_last_dot_app path name Hd), Hp, Hm. reflexivity.
+Qed.
